@@ -200,12 +200,12 @@ func verifC20Sys(id string, seed int64) *verifSys {
 		m := &monC20{}
 		solo = nil
 		for k := 0; k < nt; k++ {
-			solo = append(solo, c20Solo(seed, kindOf(k)))
+			solo = append(solo, c20Solo(seed+int64(100*k), kindOf(k))) // own key material per thread, also for equal scripts
 			steps := c20Script(kindOf(k))
 			if nt > 2 {
 				steps = steps[:verifMin(len(steps), 14)]
 			}
-			m.T = append(m.T, &c20Thread{W: c20World(seed, kindOf(k)), Steps: steps})
+			m.T = append(m.T, &c20Thread{W: c20World(seed+int64(100*k), kindOf(k)), Steps: steps})
 		}
 		return &verifWorld{Mon: m}
 	}
@@ -327,9 +327,9 @@ func init() {
 		Run: func(r *verifReport) {
 			r.Rule = "threads = independent scripted conversation pairs (handshake by query or whitespace tag, texts with rotation, OTR error, SMP, fragmentation, extra key, End; different versions and policies per thread). (1) ALL interleavings of their API calls (2 threads with full scripts, 3 threads with shortened ones) are executed on the real code, states matched on (positions, every thread's world); after EVERY step every package-level variable of package otr3 (list generated from the working tree) is compared bit for bit — deep: byte buffers to full capacity, and a canonical hash of everything reachable — with its value after init, and the step's observable result (plaintext, error, events, hashes of emitted bytes) with the same step of the script run alone. (2) Point granularity, on a binary built from instrumented copies of the sources (a call at the entry of every function and before every statement that names a package-level variable): each script runs alone and the same comparison of all package-level variables is made at EVERY point (a write undone before the call returns is seen); two scripts run as goroutines under a cooperative scheduler and for EVERY access point k of either thread that thread is preempted at k, the other runs to completion, the first resumes (thorough: every function entry is a preemption point, and two preemptions at access points), each step compared with the solo run. Because conversations can only meet in package-level state, 'no point ever sees it modified' implies that steps of different conversations commute at that granularity. (3) Separately the same scripts run free on 16 goroutines under the race detector (sampling, corroboration only)"
 			r.Assumptions = []string{"a write to package-level state through an alias (a pointer or slice taken earlier), undone before the next function entry or named access, escapes the point comparison (the race-detector pass looks there, by sampling)", "memory-model effects below sequential consistency are not modelled"}
-			ids := []string{"T2/k01", "T2/k20"}
+			ids := []string{"T2/k01", "T2/k20", "T2/k11"}
 			if r.Tier == "thorough" {
-				ids = []string{"T2/k01", "T2/k20", "T2/k12", "T2/k22", "T3/k012"}
+				ids = []string{"T2/k01", "T2/k20", "T2/k11", "T2/k12", "T2/k22", "T2/k00", "T3/k012"}
 			}
 			for _, id := range ids {
 				r.explore(verifC20Sys(id, r.Seed))
@@ -368,6 +368,9 @@ func c20RunPointsBinary(r *verifReport) {
 			cmd := exec.Command(bin, "c20points", r.Tier, fmt.Sprint(r.Seed), fmt.Sprint(sh), fmt.Sprint(n))
 			var buf bytes.Buffer
 			cmd.Stdout, cmd.Stderr = &buf, &buf
+			// one processor per shard: the threads are cooperative anyway, and per-processor caches of the runtime
+			// (sync.Pool) are then shared by the two threads as they would be under real preemption on one core
+			cmd.Env = append(os.Environ(), "GOMAXPROCS=1")
 			err := cmd.Run()
 			outs[sh] = buf.String()
 			if err != nil {
